@@ -29,7 +29,8 @@ REQUIRED_CLASSES = ['core-single', 'core-nested', 'core-sequence', 'closure-end'
                     'nesting>=3', 'node-before', 'node-inside', 'node-between', 'node-after', 'all-false',
                     'else-selected', 'later-true-clause-shadowed', 'block-under-group', 'compact-form',
                     'condition-expression', 'modification-in-clause', 'property-in-clause',
-                    'mustfail-else-no-open-block', 'mustfail-end-no-open-block', 'mustfail-else-after-end',
+                    'mustfail-else-no-open-block', 'mustfail-end-no-open-block', 'mustfail-else-after-end', 'mustfail-inside-selected-clause',
+                    'mustfail-inside-unselected-clause',
                     'shape-free', 'tainted', 'empty-or-comment-lines',
                     'empty-or-comment-lines-with-block-nested-in-unselected-clause']
 REQUIRED_MONITORS = ['parses', 'strict_oracle_programs', 'step_budget_guarded_parses']
@@ -305,6 +306,8 @@ def classes_of(case, A):
         cl.append('property-in-clause')
     if A.mustfail is not None:
         mf = A.mustfail
+        if mf['depth'] > 0:
+            cl.append('mustfail-inside-%s-clause' % ('selected' if mf['active'] else 'unselected'))
         if mf['first'] or not any(True for e in ev):
             cl.append('mustfail-%s-no-open-block' % mf['kw'])
         else:
